@@ -177,6 +177,38 @@ fn c02_counting_front_ends_bounded() {
     assert!(want.population() == len && want.successes() <= len);
     kani::cover!(len == 4 && want.successes() == 2);
 }
+// ---- C02: every front-end hands ci_wilson exactly the counts it implies.  ci_wilson is replaced by the probe that reports
+// the (successes, population) it was called with (natively, in a replay, the real ci_wilson is used on both sides);
+// `ci` / `Stats::ci`: every (n, k); the data front-ends `ci_true` / `ci_if`: BOUNDED to lengths <= 3 (the counting loops
+// themselves are verified for every length by the Verus obligations ci_true / ci_if / Stats::extend / Stats::extend_if)
+#[kani::proof]
+#[kani::stub(crate::proportion::ci_wilson, wilson_probe)]
+fn c02_count_front_ends_pass_their_counts() {
+    let c = any_confidence();
+    let (n, k): (usize, usize) = (kani::any(), kani::any());
+    kani::assume(k <= n);
+    let want = ci_wilson(c, n, k);
+    assert!(same_outcome(&ci(c, n, k), &want), "proportion::ci(c, n, k) is not ci_wilson(c, n, k)");
+    let st = Stats { population: n, successes: k };
+    assert!(same_outcome(&st.ci(c), &want), "Stats::ci is not ci_wilson of the state's counts");
+    kani::cover!(n > 10 && k == 3);
+}
+#[kani::proof]
+#[kani::unwind(5)]
+#[kani::stub(crate::proportion::ci_wilson, wilson_probe)]
+fn c02_data_front_ends_pass_their_counts_bounded() {
+    let c = any_confidence();
+    let data: [bool; 3] = kani::any();
+    let len: usize = kani::any();
+    kani::assume(len <= 3);
+    let v: Vec<bool> = data[..len].to_vec();
+    let mut k = 0;
+    let mut i = 0;
+    while i < len { if data[i] { k += 1; } i += 1; }
+    assert!(same_outcome(&ci_true(c, &v), &ci_wilson(c, len, k)), "ci_true does not use (len, number of true items)");
+    assert!(same_outcome(&ci_if(c, &v, |x| !*x), &ci_wilson(c, len, len - k)), "ci_if does not use (len, number of items satisfying the predicate)");
+    kani::cover!(len == 3 && k == 1);
+}
 // ---- C02 / C09 (BOUNDED, batches of length <= 3): extend / extend_if on a state that ALREADY holds observations add the
 // batch's counts to it (every (population, successes) the state may hold; the loops themselves are verified for every length by
 // the Verus obligations Stats::extend / Stats::extend_if)
